@@ -123,7 +123,7 @@ class Gen:
         hs = [h for h in self.helpers if h['ret'] == t]
         if hs:
             h = r.choice(hs)
-            return ('call', h['name'], [self.int_expr(scope, p['ty'], depth - 1) for p in h['params']])
+            return ('call', h['name'], [self.bool_expr(scope, depth - 1) if p['ty'] == 'bool' else self.int_expr(scope, p['ty'], depth - 1) for p in h['params']])
         return ('var', r.choice(vs)) if vs else ('int', 4, t)
 
     def bool_expr(self, scope, depth):
@@ -388,7 +388,10 @@ def check_program(chk, prover, mod, prog, src, stats, data=None, prop='C01'):
             if res == 'unsat':
                 continue
             if res == 'unknown':
-                chk.inconclusive_note(prog['entry'] + ': no verdict'); continue
+                # not decided within the solver's time limit: the program is counted as undecided (never as passed)
+                stats['undecided_solver_timeout'] = stats.get('undecided_solver_timeout', 0) + 1
+                stats.setdefault('undecided_programs', []).append(prog['entry'])
+                return None
             vals = [model_val(model, a) for a in args]
             ev = lambda x: model.eval(x, model_completion=True).as_long()
             exp = {'status': rstatus, 'marks': [ev(v) for v in rm], 'result': ev(rres[3]) if rstatus == 'ret' else None}
@@ -528,6 +531,8 @@ def run(chk, tier, seed):
                        'outside_claim': ['str/any/type values, printing through core', 'float arithmetic', 'comptime', 'error unions and .try, enums with payloads (covered by C02/C03/C10/C11)',
                                          'slices, pointers to locals, varargs, globals', 'division by zero / MIN/-1 / shift >= width (not generated)']})
     chk.assumptions.extend(['reference semantics lib/refsem.py is written from README.md', 'generated programs are well-typed by construction', 'Cranelift opcode semantics as documented'])
+    if stats.get('undecided_solver_timeout', 0) * 10 > nprog:
+        chk.inconclusive_note('%d of %d programs were not decided within the solver time limit' % (stats['undecided_solver_timeout'], nprog))
     if checked < nprog // 2:
         chk.inconclusive_note('only %d of %d generated programs could be compared (%s)' % (checked, nprog, stats))
 
